@@ -149,6 +149,29 @@ def guarded(repo, site, e, dim, at_stmt, depth=0, seen=None):
     return False, f"unrecognised expression {unparse(e)}"
 
 
+def _reachable(repo, eng, roots):
+    """Functions reachable from the given qualnames through resolved internal calls (names resolved by the repository model)."""
+    import ast as _ast
+    seen, todo = set(roots), list(roots)
+    while todo:
+        q = todo.pop()
+        fi = eng.funcs.get(q)
+        if fi is None:
+            continue
+        for n in _ast.walk(fi.node):
+            if isinstance(n, _ast.Call):
+                tgt = None
+                if isinstance(n.func, _ast.Name):
+                    tgt = repo.resolve_symbol(fi.module, n.func.id)
+                elif isinstance(n.func, _ast.Attribute) and isinstance(n.func.value, _ast.Name):
+                    tgt = repo.resolve_expr(fi.module, n.func) if hasattr(repo, "resolve_expr") else None
+                q2 = getattr(tgt, "qualname", None)
+                if q2 and q2 not in seen and q2 in eng.funcs:
+                    seen.add(q2)
+                    todo.append(q2)
+    return seen
+
+
 def run(repo, rep, tier):
     rep.rule("R-C07-1", "at every apply_ufunc(dask='parallelized') each argument with core dimensions is a dimension "
                         "coordinate, or is forced to a single chunk along them (chunk({d: -1}) reaching the call on every "
@@ -238,6 +261,56 @@ def run(repo, rep, tier):
                     rep.fail("R-C07-2", SPECPART_C, core.line(n), fname, core.text(n)[:100],
                              "Python API call inside the native routine (may run arbitrary code / release the GIL)")
     rep.ok("R-C07-2", SPECPART_C, f"{len(core.funcs)} functions", "no Python API call in specpart.c")
+
+    # ---- R-C07-5: what runs inside a dask task shares nothing writable with other tasks --------------------
+    rep.rule("R-C07-5", "kernels of apply_ufunc sites write no module-level object and no mutable default (tasks of a threaded "
+                        "scheduler would share it), and the native wrapper keeps no static Python object / array across calls "
+                        "(each call returns a freshly allocated result)")
+    from ..effects import Engine
+    eng = Engine(repo)
+    eng.solve()
+    nk = 0
+    seenk = set()
+    for s_ in all_sites:
+        for kf in s_.kernels():
+            if kf.qualname in seenk:
+                continue
+            seenk.add(kf.qualname)
+            nk += 1
+            sm = eng.summ.get(kf.qualname)
+            bad = [e_ for gk, e_ in sm.gsites.items()] if sm else []
+            # mutable defaults written anywhere below the kernel are recorded as effects on the OWN parameter of the function that has
+            # the default; find them through the call chain by scanning every function reachable is what R-C18-2 does: reuse it
+            for e_ in bad:
+                if "AttrDict.__getitem__" in e_.func:
+                    continue        # insert-on-miss of the attribute table: known finding F-C18-c, idempotent, not per-task data
+                rep.fail("R-C07-5", e_.file, e_.line, kf.qualname, e_.construct,
+                         f"kernel {kf.short} writes the module-level object {e_.root[2:]} ({e_.what}): concurrent dask tasks share it", list(e_.via))
+    # mutable defaults written by functions the kernels reach
+    from .c18 import written_mutable_defaults
+    reach = _reachable(repo, eng, seenk)
+    for fi_, pname, e0 in written_mutable_defaults(repo, eng):
+        if fi_.qualname in reach:
+            rep.fail("R-C07-5", e0.file, e0.line, fi_.qualname, f"{e0.construct}  [default of '{pname}']",
+                     "a mutable default is one object shared by every call, hence by every concurrently running dask task: tasks "
+                     "overwrite each other's intermediate data under the threaded scheduler", list(e0.via))
+    rep.ok("R-C07-5", "package", f"{nk} kernels, {len(reach)} functions reachable from them", "no write to module-level objects or mutable defaults")
+    nstat = 0
+    for fname, fn in wrap.funcs.items():
+        for n in wrap.walk(fn):
+            if n.get("kind") == "VarDecl" and n.get("storageClass") == "static":
+                nstat += 1
+                rep.fail("R-C07-5", WRAP_C, wrap.line(n), fname, wrap.text(n)[:80],
+                         "a function-static object in the wrapper outlives the call: the array handed back to one task is reused / "
+                         "overwritten by the next call while the first task is still reading it")
+    for g in wrap.globals:
+        ty = g.get("type", {}).get("qualType", "")
+        if "PyMethodDef" in ty or "PyModuleDef" in ty or ty.startswith("const "):
+            continue
+        nstat += 1
+        rep.fail("R-C07-5", WRAP_C, wrap.line(g), "specpart_wrap.c", wrap.text(g)[:80],
+                 "file-scope mutable object in the wrapper: state shared between calls / tasks")
+    rep.ok("R-C07-5", WRAP_C, f"{len(wrap.funcs)} functions, {len(wrap.globals)} file-scope objects", "no static / file-scope mutable object")
     # threads spawned in C
     for tok in ("pthread_create", "omp parallel", "#pragma omp", "thrd_create"):
         for f in (core, wrap):
